@@ -17,9 +17,14 @@ def workdir():
     return _dir[0]
 
 
-def cleanup():
+DEFER_CLEANUP = [False]  # set while several threads share the work directory (vmon.core removes it at the end)
+
+
+def cleanup(force=False):
     import shutil
 
+    if DEFER_CLEANUP[0] and not force:
+        return
     if _dir[0] is not None:
         shutil.rmtree(_dir[0], ignore_errors=True)
         _dir[0] = None
